@@ -173,7 +173,7 @@ Inductive op :=
                                              over = signing infos edited in the exported genesis file before the import *)
 | OSetProp (which value : Z) (accepted : bool).
                                           (* passed SetNetworkProperty proposal (handler Apply) for 0 MischanceConfidence, 1 MaxMischance,
-                                             2 MischanceRankDecreaseAmount, 3 DowntimeInactiveDuration, 4 UnjailMaxTime; accepted = what the
+                                             2 MischanceRankDecreaseAmount, 3 DowntimeInactiveDuration, 4 UnjailMaxTime, 5 MinValidators; accepted = what the
                                              gov module's validation (C19) answered.  The settings are not part of [state]: see [next_cfg]. *)
 
 Inductive res := ROk | RRej | RPanic.
@@ -372,7 +372,7 @@ Definition next_cfg (cfg : config) (o : op) : config :=
   match o with
   | OSetProp w x true =>
       mkCfg (if w =? 0 then x else c_mc cfg) (if w =? 1 then x else c_maxm cfg) (if w =? 2 then x else c_rankdec cfg)
-            (c_inact_pct cfg) (c_minvals cfg) (if w =? 3 then x else c_downtime cfg) (if w =? 4 then x else c_unjail_max cfg)
+            (c_inact_pct cfg) (if w =? 5 then x else c_minvals cfg) (if w =? 3 then x else c_downtime cfg) (if w =? 4 then x else c_unjail_max cfg)
             (c_ev_age_dur cfg) (c_ev_age_blocks cfg)
   | _ => cfg
   end.
